@@ -88,30 +88,33 @@ def check_parse(ctx, backend, mode, s):
     else:
         Q = Y.quoters
         ok = ctx.check(u.scheme == R["scheme"], "scheme differs from the reference decomposition", observed=u.scheme, expected=R["scheme"], entry=mode)
-        if has_auth and ref.split_authority(auth)[2] is None:
+        degenerate = has_auth and ref.split_authority(auth)[2] is None
+        if degenerate:
             # an authority with an empty host ('//:', '//@', '//u@:0'): its canonical form may be empty and the library's
-            # five-part model cannot represent "present but empty"; only scheme, query and fragment are compared
+            # five-part model cannot represent "present but empty"; scheme, query and fragment are compared, and the
+            # re-composition clauses below still apply
             ctx.label("auto/empty-host-authority")
             obs = [u.raw_query_string, u.raw_fragment]
             exp = [Q.QUERY_REQUOTER(R["query"]), Q.FRAGMENT_REQUOTER(R["fragment"])]
-            ctx.check(obs == exp, "query/fragment are not the canonicalised reference components", observed=obs, expected=exp, entry=mode)
-            return
-        ok = ok and ctx.check(bool(u.raw_authority) == has_auth, "authority presence differs", observed=u.raw_authority, expected=auth, entry=mode)
-        if not ok:
-            return
-        eq = Q.QUERY_REQUOTER(R["query"])
-        ef = Q.FRAGMENT_REQUOTER(R["fragment"])
-        ep = Q.PATH_REQUOTER(R["path"])
-        if has_auth and "." in ep:
-            ep = ref.remove_dot_segments(ep) if ep.startswith("/") else ep
-        if has_auth and not ep:
-            ep = "/"
-        obs = [u.raw_path, u.raw_query_string, u.raw_fragment]
-        exp = [ep, eq, ef]
-        if not ctx.check(obs == exp, "path/query/fragment are not the canonicalised reference components", observed=obs, expected=exp, entry=mode):
-            return
+            if not ctx.check(obs == exp, "query/fragment are not the canonicalised reference components", observed=obs, expected=exp, entry=mode):
+                return
+        else:
+            ok = ok and ctx.check(bool(u.raw_authority) == has_auth, "authority presence differs", observed=u.raw_authority, expected=auth, entry=mode)
+            if not ok:
+                return
+            eq = Q.QUERY_REQUOTER(R["query"])
+            ef = Q.FRAGMENT_REQUOTER(R["fragment"])
+            ep = Q.PATH_REQUOTER(R["path"])
+            if has_auth and "." in ep:
+                ep = ref.remove_dot_segments(ep) if ep.startswith("/") else ep
+            if has_auth and not ep:
+                ep = "/"
+            obs = [u.raw_path, u.raw_query_string, u.raw_fragment]
+            exp = [ep, eq, ef]
+            if not ctx.check(obs == exp, "path/query/fragment are not the canonicalised reference components", observed=obs, expected=exp, entry=mode):
+                return
     # authority sub-components
-    if has_auth:
+    if has_auth and not (mode == "auto" and ref.split_authority(auth)[2] is None):
         user, password, host, port_text, junk = ref.split_authority(auth)
         if junk:
             ctx.label("skipped:bracket-junk")
@@ -143,7 +146,7 @@ def check_parse(ctx, backend, mode, s):
                             if ":" not in h and not h[-1:].isdigit():
                                 exp[2] = h.lower()
                 ctx.check(got == exp, "user/password/host/port are not the reference split of the authority", observed=got, expected=exp, entry=mode)
-    else:
+    elif not has_auth:
         got = [u.raw_user, u.raw_password, u.raw_host, u.explicit_port]
         if mode == "enc":
             ctx.check(got == [None, None, None, None], "authority sub-components of a URL without authority", observed=got, expected=[None] * 4, entry=mode)
